@@ -53,9 +53,14 @@ fn c18_shard(ctx: &Ctx, out: &mut ShardOut) {
         Err((at, f)) => Err(CaseFail { prop: "C18".into(), msg: format!("[{}] fault index {}, step {}: {}", f.prop, at, f.step, f.msg) }),
     });
     out.exhaustive_parts.push("for each generated case: every callback index of the fault-free run".into());
+    // callbacks that panic while other threads write, resize and convert bins
+    super::concchecks::c18_conc_run(ctx, out);
 }
 
-fn c18_replay(_sub: &str, case: &Value) -> Result<(), CaseFail> {
+fn c18_replay(sub: &str, case: &Value) -> Result<(), CaseFail> {
+    if sub == "panic-conc" {
+        return super::concchecks::c18_conc_replay(case);
+    }
     let c: FaultCase = serde_json::from_value(case.clone()).map_err(|e| CaseFail { prop: "C18".into(), msg: format!("bad replay file: {}", e) })?;
     run_fault_case(&c).map(|_| ()).map_err(|(at, f)| CaseFail { prop: "C18".into(), msg: format!("[{}] fault index {}, step {}: {}", f.prop, at, f.step, f.msg) })
 }
